@@ -81,7 +81,11 @@ func Run(P *sx.Program, id, tier string, seed int64, verifDir string, verbose bo
 		fmt.Println(err)
 		return 2
 	}
-	defer os.RemoveAll(scratch)
+	if !smt.KeepQueries {
+		defer os.RemoveAll(scratch)
+	} else {
+		fmt.Println("queries kept in", scratch)
+	}
 	smt.ScratchDir = scratch
 	c, err := NewCtx(P, tier, seed)
 	if err != nil {
@@ -298,6 +302,7 @@ func Run(P *sx.Program, id, tier string, seed int64, verifDir string, verbose bo
 		"vacuity_canaries":      canaries,
 		"by_backend":            bySolver,
 		"solver_seconds":        round3(rep.SolverSecs),
+		"explore_seconds":       round3(rep.ExploreSecs),
 		"functions_under_contract": funcs,
 		"units":                 rep.Units,
 		"paths":                 rep.Paths,
@@ -322,8 +327,8 @@ func Run(P *sx.Program, id, tier string, seed int64, verifDir string, verbose bo
 	os.MkdirAll(filepath.Join(verifDir, "evidence"), 0o755)
 	data, _ := json.MarshalIndent(ev, "", " ")
 	os.WriteFile(filepath.Join(verifDir, "evidence", id+".json"), data, 0o644)
-	fmt.Printf("%s %s: %d obligations, %d discharged (%d by solver, %d by simplifier), %d failed, %d undecided, %d bounded; %d units, %d paths; solver %.1fs, wall %.1fs\n",
-		id, tier, total, proved+trivial, proved, trivial, failed, unknown, bounded, rep.Units, rep.Paths, rep.SolverSecs, time.Since(t0).Seconds())
+	fmt.Printf("%s %s: %d obligations, %d discharged (%d by solver, %d by simplifier), %d failed, %d undecided, %d bounded; %d units, %d paths; explore %.1fs, solver %.1fs (cpu), wall %.1fs\n",
+		id, tier, total, proved+trivial, proved, trivial, failed, unknown, bounded, rep.Units, rep.Paths, rep.ExploreSecs, rep.SolverSecs, time.Since(t0).Seconds())
 	for _, l := range lines {
 		fmt.Println(l)
 	}
